@@ -650,6 +650,12 @@ def _inlinable(P: Program, f: Func, c: ast.Call) -> Optional[Func]:
     rets = [x for x in own_nodes(target.node) if isinstance(x, ast.Return)]
     if any(r is not body[-1] for r in rets):
         return None
+    # a parameter that the helper binds again (assignment, loop variable, ...) cannot be replaced by the caller's argument expression:
+    # inside the helper the name then means something else (and a shadowing slip there must stay visible)
+    pset = set(target.params())
+    for x in own_nodes(target.node):
+        if isinstance(x, ast.Name) and isinstance(x.ctx, (ast.Store, ast.Del)) and x.id in pset:
+            return None
     if any(isinstance(x, (ast.Yield, ast.YieldFrom, ast.Global, ast.Nonlocal)) for x in own_nodes(target.node)):
         return None
     return target
